@@ -342,7 +342,7 @@ def ep_lift_ode(fact, a, ctx):
 
 
 def _reference_solution(fact, tcoeffs_av, smoother):
-    """A short real solve (3 save points) giving marginals / a MarkovSequence posterior."""
+    """A short real solve (fixed grid, 3 points) giving marginals / a MarkovSequence posterior."""
     import jax.numpy as jnp
     from probdiffeq import ivpsolve
     from probdiffeq import probdiffeq as pdq
@@ -351,11 +351,10 @@ def _reference_solution(fact, tcoeffs_av, smoother):
     vf = pdq.ode(_vf1, jacobian=pdq.jacobian_materialize())
     prior = ssm.prior_wiener_integrated(build(tcoeffs_av))
     ts0 = ssm.constraint_ode_ts0(vf)
-    strategy = pdq.strategy_smoother_fixedpoint() if smoother else pdq.strategy_filter()
+    strategy = pdq.strategy_smoother_fixedinterval() if smoother else pdq.strategy_filter()
     solver = pdq.solver(strategy=strategy, constraint=ts0)
-    error = pdq.error_residual_std(constraint=ts0)
-    solve = ivpsolve.solve_adaptive_save_at(solver=solver, error=error)
-    return solve(prior, save_at=jnp.asarray([0.0, 0.1, 0.2]), atol=1e-2, rtol=1e-2)
+    solve = ivpsolve.solve_fixed_grid(solver=solver)
+    return solve(prior, grid=jnp.asarray([0.0, 0.1, 0.2]))
 
 
 _REF = {}
@@ -427,11 +426,13 @@ def ep_error_residual(fact, a, ctx):
     error = pdq.error_residual_std(constraint=c)
 
     def use():
+        # first use of the estimator: one solver step and one error estimate
         prior = ssm.prior_wiener_integrated([0.5 * jnp.ones((d,)) for _ in range(3)])
         solver = pdq.solver(strategy=pdq.strategy_filter(), constraint=c)
-        solve = ivpsolve.solve_adaptive_terminal_values(solver=solver, error=error)
-        sol = solve(prior, t0=0.0, t1=0.05, atol=1e-2, rtol=1e-2)
-        return [sol.u.mean, sol.u.std]
+        s0 = solver.init(t=jnp.asarray(0.0), u=prior, damp=0.0)
+        s1 = solver.step(state=s0, dt=0.05, damp=0.0)
+        power, _ = error.estimate_error_norm(error.init_error(), s0, s1, dt=0.05, atol=1e-2, rtol=1e-2, damp=0.0)
+        return [power, s1.u.mean, s1.u.std]
 
     return error, use
 
@@ -550,14 +551,24 @@ def main():
         import concurrent.futures as cf
         import multiprocessing as mp
 
-        # interleave so that every worker gets a similar mix
-        slices = [cases[i::jobs] for i in range(jobs)]
+        # interleave so that every worker gets a similar mix; cases sharing a reference
+        # solve (time-series loss) stay on one worker
+        import zlib
+
+        owner = []
+        for i, c in enumerate(cases):
+            if c["ep"] == "loss_timeseries":
+                owner.append(zlib.crc32(json.dumps([c["fact"], c["args"]["tcoeffs"]]).encode()) % jobs)
+            else:
+                owner.append(i % jobs)
+        idx = [[i for i in range(len(cases)) if owner[i] == w] for w in range(jobs)]
+        slices = [[cases[i] for i in ix] for ix in idx]
         with cf.ProcessPoolExecutor(max_workers=jobs, mp_context=mp.get_context("spawn")) as ex:
             parts = list(ex.map(run_slice, slices))
         res = [None] * len(cases)
-        for i, part in enumerate(parts):
-            for j, r in enumerate(part):
-                res[i + j * jobs] = r
+        for ix, part in zip(idx, parts):
+            for i, r in zip(ix, part):
+                res[i] = r
     json.dump({"results": res}, open(sys.argv[2], "w"))
 
 
